@@ -78,6 +78,7 @@ var ruleTable = []RuleDef{
 	{"R-KEEP-NEEDS-ROW", (*Model).ruleKEEPNEEDSROW, "an option that keeps the row's value is honoured only on paths on which the row was read"},
 	{"R-XATTR-VALIDATE", (*Model).ruleXATTRVALIDATE, "the combined writer decodes every supplied xattr value before the transaction, whatever the options"},
 	{"R-ERR-DROPPED", (*Model).ruleERRDROPPED, "an error that is only ever compared with nil leads, on its non-nil branch, only to returns that report a failure"},
+	{"R-RETRY-STATE", (*Model).ruleRETRYSTATE, "no argument of a read-modify-write loop's write-back is carried round the loop from an earlier iteration (a reset to a constant is not state): what an abandoned attempt computed is never written by the retry"},
 	{"R-NIL-ROW", (*Model).ruleNILROW, "a row that may come from the closed-bucket stub is scanned through the nil-safe helper, never with (*sql.Row).Scan directly"},
 	{"R-TIMER", (*Model).ruleTIMER, "a new expiry timer is created only when the manager holds none"},
 }
